@@ -1,9 +1,10 @@
 import ElvModel.Go.Driver
+import ElvModel.C01.Driver
 import ElvModel.C44.Server
 namespace C44
 open Go
 
-/-- The tree the driver models: the code after the three fixes/C44-*.patch. -/
+/-- The tree the driver models: the code after the four fixes/C44-*.patch. -/
 def V : Variant := .fixed
 
 def showPos (p : Pos) : String := s!"{p.line}.{p.char}"
@@ -21,12 +22,9 @@ def ptab (s : Bytes) (maxL maxC : Int) : String :=
     (intRange (-1) maxC).map fun c => toString (toIdxOfVisits vs l c)
   "F:" ++ ",".intercalate fs ++ " T:" ++ ",".intercalate ts
 
-def parseErrs (s : String) : Option (List (Int × Int)) :=
-  if s = "-" then some [] else
-  (s.splitOn ",").mapM fun e =>
-    match e.splitOn ":" with
-    | [a, b] => do pure ((← a.toInt?), (← b.toInt?))
-    | _ => none
+/-- the `<printable>` field of a text (as in the C01 ops): the non-ASCII code
+points decodable somewhere in the text for which `unicode.IsPrint` holds. -/
+def parsePrintable (s : String) : Option (List Int) := C01.parseIntList s
 
 def parseComp (s : String) : Option (List (Nat × Comp)) :=
   if s = "-" then some [] else
@@ -36,16 +34,46 @@ def parseComp (s : String) : Option (List (Nat × Comp)) :=
     | [d, n, name, f, t] => do pure ((← d.toNat?), Comp.ok (← n.toNat?) name (← f.toInt?) (← t.toInt?))
     | _ => none
 
-def parseDoc (text errs comp : String) : Option Doc := do
-  pure ⟨← hexDecode text, ← parseErrs errs, ← parseComp comp⟩
+/-- a text on an op line: `<hex text> <printable> <completer table>`; gives the
+text and its printable code points. -/
+def parseDoc (text pr comp : String) : Option (Text × List Int) := do
+  pure (⟨← hexDecode text, ← parseComp comp⟩, ← parsePrintable pr)
 
-def parseDocs : List String → Option (List Doc)
-  | [] => some []
+def parseDocs : List String → Option (List Text × List Int)
+  | [] => some ([], [])
   | t :: e :: c :: rest => do
-    let d ← parseDoc t e c
-    let ds ← parseDocs rest
-    pure (d :: ds)
+    let (d, p) ← parseDoc t e c
+    let (ds, ps) ← parseDocs rest
+    pure (d :: ds, p ++ ps)
   | _ => none
+
+/-- `reset`'s home table: `<hex uname>:<hex home | !>` comma separated. -/
+def parseHomes (s : String) : Option (List (Bytes × Option Bytes)) :=
+  if s = "-" then some [] else
+  (s.splitOn ",").mapM fun e =>
+    match e.splitOn ":" with
+    | [u, "!"] => do pure ((← hexDecode u), none)
+    | [u, h] => do pure ((← hexDecode u), some (← hexDecode h))
+    | _ => none
+
+def addDocEntry (tab : DocTable) (ns : Bytes) (isVar : Bool) (name : Bytes) (id : String) : DocTable :=
+  match tab with
+  | [] => [(ns, if isVar then ⟨[], [(name, id)]⟩ else ⟨[(name, id)], []⟩)]
+  | (k, ds) :: rest =>
+    if k == ns then
+      (k, if isVar then { ds with vars := ds.vars ++ [(name, id)] } else { ds with fns := ds.fns ++ [(name, id)] }) :: rest
+    else (k, ds) :: addDocEntry rest ns isVar name id
+
+/-- `reset`'s documentation table: `<hex ns>:<F|V>:<hex name>:<id>` comma
+separated, in the order of `docsMap()[ns].Fns` / `.Vars`. -/
+def parseDocTable (s : String) : Option DocTable :=
+  if s = "-" then some [] else
+  (s.splitOn ",").foldlM (init := ([] : DocTable)) fun tab e =>
+    match e.splitOn ":" with
+    | [ns, k, name, id] => do
+      if k ≠ "F" ∧ k ≠ "V" then none
+      pure (addDocEntry tab (← hexDecode ns) (k == "V") (← hexDecode name) id)
+    | _ => none
 
 def parsePK : String → Option PK
   | "absent" => some .absent
@@ -56,20 +84,24 @@ def parsePK : String → Option PK
   | "arr" => some .illTyped
   | _ => none
 
-def parseReq : List String → Option Req
-  | ["open", uri, text, errs, comp] => do pure (.didOpen (← hexDecode uri) (← parseDoc text errs comp))
+/-- a request and the printable code points of the texts it carries -/
+def parseReq : List String → Option (Req × List Int)
+  | ["open", uri, text, pr, comp] => do
+    let (t, p) ← parseDoc text pr comp
+    pure (.didOpen (← hexDecode uri) t, p)
   | "change" :: uri :: n :: rest => do
-    let ds ← parseDocs rest
-    if ds.length ≠ (← n.toNat?) then none else pure (.didChange (← hexDecode uri) ds)
-  | ["hover", uri, l, c] => do pure (.hover (← hexDecode uri) (← l.toInt?) (← c.toInt?))
-  | ["completion", uri, l, c] => do pure (.completion (← hexDecode uri) (← l.toInt?) (← c.toInt?))
-  | ["raw", m, pk] => do pure (.raw m (← parsePK pk))
+    let (ds, p) ← parseDocs rest
+    if ds.length ≠ (← n.toNat?) then none else pure (.didChange (← hexDecode uri) ds, p)
+  | ["hover", uri, l, c] => do pure (.hover (← hexDecode uri) (← l.toInt?) (← c.toInt?), [])
+  | ["completion", uri, l, c] => do pure (.completion (← hexDecode uri) (← l.toInt?) (← c.toInt?), [])
+  | ["raw", m, pk] => do pure (.raw m (← parsePK pk), [])
   | _ => none
 
 def showHRes : HRes → String
   | .null => "result:null"
   | .caps => "result:caps"
-  | .hover => "result:hover"
+  | .hover none => "result:hover:null"
+  | .hover (some id) => s!"result:hover:{id}"
   | .items0 => "result:items:0"
   | .items n k r => s!"result:items:{n}:{k}:{showRng r}"
   | .error c => s!"error:{c}"
@@ -80,11 +112,24 @@ def showReply : Reply → String
 
 def showDiag : Option Diag → String
   | none => "nodiag"
-  | some (uri, rs) => s!"diag:{hexEnc uri}:[" ++ ";".intercalate (rs.map showRng) ++ "]"
+  | some (uri, rs) => s!"diag:{hexEnc uri}:[" ++
+      ";".intercalate (rs.map fun d => showRng d.1 ++ "/" ++ C01.dumpMsg d.2) ++ "]"
 
 structure DS where
   srv : Option Server     -- `none`: the process has died
-  empty : Doc
+  empty : Text
+  homes : List (Bytes × Option Bytes)
+  docs : DocTable
+
+/-- The library parameters for one op: `unicode.IsPrint` restricted to what the
+op's texts can ask about (their `<printable>` fields), `getHome` and the
+documentation table from `reset`. -/
+def DS.lib (st : DS) (printable : List Int) : Lib :=
+  { isPrint := fun r => printable.contains r
+    home := fun u => match st.homes.lookup u with | some h => h | none => none
+    docs := st.docs }
+
+def showExc (e : String) : String := if e = "FUEL" then "FUEL" else "EXC " ++ e
 
 def stepLine (st : DS) : List String → DS × String
   | ["reset-ptab", h, l, c] =>
@@ -96,35 +141,35 @@ def stepLine (st : DS) : List String → DS × String
     | some s, some f, some t, some l, some c =>
       (st, s!"R:{showRng (rangeV V s f t)} T:{toIdxV V s l c}")
     | _, _, _, _, _ => (st, "bad-op")
-  | ["reset", comp] =>
-    match parseComp comp with
-    | some c => ({ srv := some Server.new, empty := ⟨[], [], c⟩ }, "ready")
-    | none => (st, "bad-op")
+  | ["reset", comp, homes, docs] =>
+    match parseComp comp, parseHomes homes, parseDocTable docs with
+    | some c, some h, some d => ({ srv := some Server.new, empty := ⟨[], c⟩, homes := h, docs := d }, "ready")
+    | _, _, _ => (st, "bad-op")
   | "burst" :: uri :: n :: rest =>
     -- `n` didChange notifications sent back to back: served one after the other
     match hexDecode uri, n.toNat?, parseDocs rest, st.srv with
-    | some uri, some n, some ds, some s =>
+    | some uri, some n, some (ds, pr), some s =>
       if ds.length ≠ n then (st, "bad-op") else
-      match burst V st.empty s uri ds with
+      match burst V (st.lib pr) st.empty s uri ds with
       | .ok (s', dgs) =>
         ({ st with srv := some s' },
          "burst " ++ (if dgs.isEmpty then "nodiag" else "+".intercalate (dgs.map fun d => showDiag (some d))))
-      | .exc e => (st, "EXC " ++ e)
+      | .exc e => (st, showExc e)
       | .panic _ => ({ st with srv := none }, "PANIC")
     | some _, some _, some _, none => (st, "DEAD")
     | _, _, _, _ => (st, "bad-op")
   | kind :: id :: rest =>
     match parseReq (kind :: rest) with
     | none => (st, "bad-op")
-    | some req =>
+    | some (req, pr) =>
       match st.srv with
       | none => (st, "DEAD")
       | some s =>
-        match serve V st.empty s (id != "-") req with
+        match serve V (st.lib pr) st.empty s (id != "-") req with
         | .ok o => ({ st with srv := some o.srv }, showReply o.reply ++ " " ++ showDiag o.diag)
-        | .exc e => (st, "EXC " ++ e)
+        | .exc e => (st, showExc e)
         | .panic _ => ({ st with srv := none }, "PANIC")
   | _ => (st, "bad-op")
 
-def driver : Driver := { σ := DS, init := ⟨none, ⟨[], [], []⟩⟩, step := stepLine }
+def driver : Driver := { σ := DS, init := ⟨none, ⟨[], []⟩, [], []⟩, step := stepLine }
 end C44
